@@ -357,7 +357,13 @@ def _receiver_classes(prog, fi, recv, local_classes):
         if key in RECEIVERS:
             if RECEIVERS[key] == EXTERNAL:
                 return EXTERNAL
-            return [prog.classes[q] for q in RECEIVERS[key] if q in prog.classes]
+            out_ = []
+            for q in RECEIVERS[key]:
+                try:
+                    out_.append(prog.cls(q))        # follows a class that moved to another module
+                except Exception:
+                    pass
+            return out_
     return []
 
 
